@@ -105,6 +105,10 @@ class GeneralKernel:
                     out.append(dict(l=l, K=1, M=1, N=1, orders=ch))
             out.append(dict(l=2, K=2, M=2, N=2, orders=[(1, 0, 2), (0, 0, 0), (3, 1, 0)]))
             out.append(dict(l=1, K=2, M=1, N=1, orders=[(2, 2, 2)], comps="reversed"))
+            # the top of the property's range (i shells, order 4 on an axis)
+            out.append(dict(l=6, K=1, M=1, N=1, orders=[(4, 0, 0), (0, 3, 2), (2, 2, 2), (1, 0, 4)]))
+            out.append(dict(l=5, K=1, M=1, N=1, orders=[(4, 4, 4), (3, 0, 1), (0, 0, 0)]))
+            out.append(dict(l=4, K=1, M=1, N=1, orders=[(0, 4, 1), (1, 1, 1)]))
         else:
             triples = list(itertools.product(range(5), repeat=3))
             for l in range(0, 7):
@@ -153,6 +157,10 @@ class DirectKernel(GeneralKernel):
                 out.append(dict(l=l, K=1, M=1, N=1, orders=ch))
         out.append(dict(l=2, K=2, M=2, N=2, orders=[(1, 0, 2), (0, 0, 0), (2, 1, 0), (2, 2, 2)]))
         out.append(dict(l=1, K=2, M=1, N=1, orders=[(2, 2, 1), (1, 2, 0)], comps="reversed"))
+        if tier == "quick":
+            # the top of the property's range too (g, h, i shells): closed forms that agree up to a power of 3 differ there
+            for l in (4, 5, 6):
+                out.append(dict(l=l, K=1, M=1, N=1, orders=[(2, 0, 0), (0, 2, 1), (1, 1, 2), (2, 2, 2), (0, 1, 0)]))
         if tier == "thorough":
             out.append(dict(l=3, K=3, M=2, N=2, orders=[(2, 0, 1), (1, 1, 1)], comps="reversed"))
         return out
